@@ -105,9 +105,10 @@ fn trial<C: Suite>(name: &str, scen: &Scenario, run: &Runner<C>, min_listed: usi
     }
     let draws = rec.draws.clone();
     let recorded = rec.out.clone();
-    // (c0) enough draws, pairwise distinct listed values
-    if draws.len() < o0.listed.len() {
-        return viol("C16.too_few_draws", format!("{} requests to the random source for {} secret-derived values", draws.len(), o0.listed.len()));
+    // (c0) enough randomness (in BYTES - the granularity of the requests is the implementation's business: at least 16 bytes,
+    // i.e. 128 bits, per secret-derived value), pairwise distinct listed values
+    if recorded.len() < 16 * o0.listed.len() {
+        return viol("C16.too_few_draws", format!("{} bytes ({} requests) drawn from the random source for {} secret-derived values", recorded.len(), draws.len(), o0.listed.len()));
     }
     for i in 0..o0.listed.len() {
         for j in (i + 1)..o0.listed.len() {
@@ -151,7 +152,9 @@ fn trial<C: Suite>(name: &str, scen: &Scenario, run: &Runner<C>, min_listed: usi
     // (c) perturb one draw at a time
     let mut moved_by: BTreeMap<String, Vec<usize>> = BTreeMap::new();
     let mut stayed_under: BTreeMap<usize, Vec<String>> = BTreeMap::new();
-    for (di, (off, len)) in draws.iter().enumerate() {
+    // windows of 16 bytes over everything that was consumed (independent of request boundaries)
+    let windows: Vec<(usize, usize)> = (0..recorded.len().div_ceil(16)).map(|w| (w * 16, 16.min(recorded.len() - w * 16))).collect();
+    for (di, (off, len)) in windows.iter().enumerate() {
         let mut r = SimRng::new(RngMode::ReplayPerturbed { stream: recorded.clone(), off: *off, len: *len, fallback: stream(scen.seed, scen.run, "c16/fallback") });
         rep.evaluations += 1;
         match run(&mut r) {
@@ -162,7 +165,10 @@ fn trial<C: Suite>(name: &str, scen: &Scenario, run: &Runner<C>, min_listed: usi
                     continue;
                 }
                 if o.all == o0.all {
-                    return viol("C16.draw_has_no_effect", format!("changing the bytes of request #{di} ({len} bytes at offset {off}) changes no output"));
+                    // a request whose bytes influence nothing is not what the property forbids (it speaks about the VALUES, each
+                    // of which must have its own draw): recorded for the evidence, not a verdict
+                    rep.probe("draw_without_observable_effect");
+                    continue;
                 }
                 for l in &o0.listed {
                     if o.all.get(l) != o0.all.get(l) {
@@ -177,10 +183,10 @@ fn trial<C: Suite>(name: &str, scen: &Scenario, run: &Runner<C>, min_listed: usi
     }
     for l in &o0.listed {
         let Some(ds) = moved_by.get(l) else {
-            return viol("C16.value_ignores_random_source", format!("no single request to the random source influences '{l}'"));
+            return viol("C16.value_ignores_random_source", format!("no 16-byte window of the consumed randomness influences '{l}'"));
         };
         if o0.listed.len() >= 2 && !ds.iter().any(|d| stayed_under.get(d).map(|s| !s.is_empty()).unwrap_or(false)) {
-            return viol("C16.values_share_one_draw", format!("every request that moves '{l}' moves all other secret-derived values too: it is not drawn on its own"));
+            return viol("C16.values_share_one_draw", format!("every window of the consumed randomness that moves '{l}' moves all other secret-derived values too: it is not drawn on its own"));
         }
     }
     rep.extra_shapes.push(format!("{}|{name}|n{}t{}|d{}", scen.suite, scen.n, scen.t, draws.len()));
@@ -386,8 +392,8 @@ fn exec_c<C: Suite>(scen: &Scenario) -> Exec {
         if !ok {
             return Exec::Violation(Violation::new("C16", "C16.control_failed", "valid batch rejected".to_string()), rep);
         }
-        if rec.draws.len() < items {
-            return Exec::Violation(Violation::new("C16", "C16.too_few_draws", format!("batch verify of {items} items made {} requests to the random source: fewer than one blinder per item", rec.draws.len())), rep);
+        if rec.total() < 16 * items {
+            return Exec::Violation(Violation::new("C16", "C16.too_few_draws", format!("batch verify of {items} items drew {} bytes ({} requests) from the random source: fewer than 128 bits per item, i.e. not a blinder per item", rec.total(), rec.draws.len())), rep);
         }
         let mut again = SimRng::replay(rec.out.clone(), stream(scen.seed, scen.run, "c16/fallback"));
         if !verify(&mut again) || again.total() != rec.total() {
